@@ -20,6 +20,7 @@ import (
 	"reflect"
 	"runtime/debug"
 	"sort"
+	"strconv"
 	"strings"
 	"testing"
 	"time"
@@ -295,7 +296,15 @@ func repeatOnStatefulMapper(qi int) string {
 		m.Put(graph.StringKind(k))
 	}
 	var first string
-	for i := 0; i < 3; i++ {
+	for i := 0; i < 4; i++ {
+		// what the process did in between must not matter: a long-lived process sees thousands of
+		// labels and relationship types from other queries (every one is interned by graph.StringKind)
+		if i >= 2 {
+			n := []int{1000, 70000}[i-2]
+			for j := 0; j < n; j++ {
+				graph.StringKind("OtherTenantLabel" + strconv.Itoa(j))
+			}
+		}
 		q, err := parse(corpus[qi])
 		if err != nil {
 			return ""
